@@ -27,7 +27,10 @@ RULE = ("(c) the same strings wrapped in each of 9 syntactic contexts; "
         "sequence) signatures of accepted black-box strings.")
 ASSUMPTIONS = [
     "characters outside the alphabet behave like the two letters (the parser "
-    "compares characters only against the significant ones)",
+    "compares characters only against the significant ones); the one place "
+    "where that could fail - white-space of every kind around and inside "
+    "the search keywords, which are looked up by name - is enumerated by a "
+    "family of its own",
     "termination watchdog: a batch of 2000 strings may take 60 s",
     "graph: literal runs inside one segment id are capped; states beyond the "
     "depth bound are not expanded",
@@ -196,6 +199,33 @@ def bb_shard(arg):
     return st
 
 
+KEYWORDS = ["has_child", "max", "min", "name", "parent", "unique", "distinct"]
+BLANKS = ["", " ", "\t", "\n", "\r", "\x0b", "\x0c", "\u00a0", "\u2003",
+          "\\ ", "\\\t", "  ", " \t"]
+
+
+def kwws_shard(kw):
+    """Characters OUTSIDE the alphabet where they could matter: every kind
+    of white-space (and its escaped form) before, inside the name of, and
+    after each real search keyword, plain and inverted, alone and after a
+    key."""
+    st = core.Stats(ID)
+    texts = []
+    for pre in BLANKS:
+        for mid in BLANKS:
+            for inv in ("", "!"):
+                for params in ("", "a", "a, b"):
+                    for lead in ("", "x", "/x"):
+                        texts.append("%s[%s%s%s%s(%s)]" % (
+                            lead, inv, pre, kw, mid, params))
+        # white-space splitting the keyword's own name
+        for cut in range(1, len(kw)):
+            texts.append("[%s%s%s(a)]" % (kw[:cut], pre, kw[cut:]))
+    for lo in range(0, len(texts), 2000):
+        _guarded(st, texts[lo:lo + 2000], "keyword %s + white-space" % kw)
+    return st
+
+
 # -------------------------------------------------------------------- graph
 _OBS = None
 
@@ -319,12 +349,17 @@ def explore(tier, seed):
     for st in core.pmap(ctx_shard, cshards, 2):
         total.merge(st)
     ctx_evals = total.evaluations - bb_evals
+    for st in core.pmap(kwws_shard, KEYWORDS):
+        total.merge(st)
+    kw_evals = total.evaluations - bb_evals - ctx_evals
     ginfo = graph(total, depth, maxseg, witness=(tier != "quick"))
     bounds = {"blackbox": {"alphabet": SIGMA, "max_length": maxlen,
                            "strings": bb_evals,
                            "separator_settings": ["AUTO", "DOT", "FSLASH"]},
               "contexts": {"wrappers": CONTEXTS, "inner_max_length": ctxlen,
                            "strings": ctx_evals},
+              "keywords_and_white_space": {"keywords": KEYWORDS, "blanks": [
+                  repr(b) for b in BLANKS], "strings": kw_evals},
               "graph": ginfo}
     return total, bounds
 
